@@ -577,6 +577,15 @@ func (w *wroteCounter) waitFor(idx int) {
 	}
 }
 
+// envTrouble: the dump-off run did not end the way the scripted exchange ends (only a truncated
+// body gives an error, "unexpected-eof"), or the dump-on run hit the watchdog / a timeout while
+// the dump-off run did not: repeat before believing it.
+func envTrouble(off, on runOut) bool {
+	bad := func(e string) bool { return e != "" && e != "unexpected-eof" }
+	slow := func(x runOut) bool { return x.Hang || x.Res.Err == "timeout" }
+	return off.Hang || bad(off.Res.Err) || (slow(on) && !slow(off))
+}
+
 var debugW = os.Stderr
 
 func debugSlow(off, on runOut) bool {
@@ -804,9 +813,20 @@ func h1Pairs(r *hk.Run, rng *hk.Rand, count int) {
 			// buffer holds the last attempt); keep an explicit Output so every attempt is observed
 			cfg.Request.Set[slotOut] = true
 		}
-		id := fmt.Sprintf("h1-%d", i)
-		off, scOff := h1Run(o, id, ex, nil)
-		on, scOn := h1Run(o, id, ex, &cfg)
+		// an exchange that fails WITHOUT dump (or hangs / times out on a loaded machine) is not
+		// the dump's doing: such a pair is repeated (same exchange, same configuration) and only
+		// the last attempt is judged
+		var off, on runOut
+		var scOff, scOn *h1Script
+		for attempt := 0; attempt < 3; attempt++ {
+			id := fmt.Sprintf("h1-%d-%d", i, attempt)
+			off, scOff = h1Run(o, id, ex, nil)
+			on, scOn = h1Run(o, id, ex, &cfg)
+			if !envTrouble(off, on) {
+				break
+			}
+			r.Count("h1.retried-pair")
+		}
 		if debugSlow(off, on) {
 			fmt.Fprintf(debugW, "slow h1 %s %s off=%v on=%v %s/%s\n", ex.Shape, cfg.shape(), off.Elapsed, on.Elapsed, off.Res.Err, on.Res.Err)
 		}
